@@ -411,7 +411,7 @@ fn plugin_ws(alt: Option<(&str, u8)>) -> crate::ws::Ws {
     use crate::ws::{FileSpec, Item, Ws};
     let mut files = vec![
         FileSpec::new("conftest.py", vec![Item::fixture("root_fx", &[])]),
-        FileSpec { rel: "plug/myplug.py".into(), plugin: true, items: vec![Item::StarImport { module: "shared".into() }, Item::StarImport { module: "conftest".into() }, Item::PytestPlugins { modules: vec!["more".into()] }, Item::fixture("pfx", &[])] },
+        FileSpec { rel: "plug/myplug.py".into(), plugin: true, guarded_imports: false, items: vec![Item::StarImport { module: "shared".into() }, Item::StarImport { module: "conftest".into() }, Item::PytestPlugins { modules: vec!["more".into()] }, Item::fixture("pfx", &[])] },
         FileSpec::new("plug/shared.py", vec![Item::fixture("shx", &[])]),
         FileSpec::new("plug/more.py", vec![Item::fixture("mx", &[])]),
         FileSpec::new("plug/conftest.py", vec![Item::fixture("cfx", &["shx"])]),
